@@ -165,10 +165,61 @@ theorem runAt_miss (c : Nat) (bs r : Bytes) (hskip : Dec.skip true (bs ++ r) = .
       · simp
     simp [decFields, runAt, hcond, Dec.bind_run, ih]
 
+/-! ### the bare-`null` test of a tagged nil-capable field (K5 repair) -/
+
+theorem startOk_tag (n : Nat) (h : n < 18446744073709551616) : startOk (Enc.tag n) = true := by
+  unfold Enc.tag Enc.typeLen
+  split
+  · have : (Minicbor.u8 (Enc.TAGGED + n)).toNat = Enc.TAGGED + n := u8_toNat (by simp [Enc.TAGGED]; omega)
+    simp [startOk, Enc.TAGGED]; omega
+  · split
+    · simp [startOk, Enc.TAGGED]
+    · split
+      · simp [startOk, Enc.TAGGED]
+      · split <;> simp [startOk, Enc.TAGGED]
+
+/-- at anything that does not start like `null` the test is negative and consumes nothing. -/
+theorem bareNull_start (fd : FDec) (bs rest : Bytes) (h : startOk bs = true) :
+    bareNull fd (bs ++ rest) = .ok false (bs ++ rest) := by
+  unfold bareNull
+  split
+  · obtain ⟨ty, h1, h2⟩ := datatype_startOk bs rest h
+    have : (ty == CType.null) = false := by simpa using h2
+    simp [Dec.bind_run, h1, this]
+  · rfl
+
+theorem bareNull_untagged (fd : FDec) (bs : Bytes) (h : fd.a.tag = none) : bareNull fd bs = .ok false bs := by
+  simp [bareNull, h]
+
+/-- in front of the field's own tag the test is negative. -/
+theorem bareNull_tagBytes (fd : FDec) (X : Bytes) (htag : tagOk fd.a.tag = true) :
+    bareNull fd (tagBytes fd.a.tag ++ X) = .ok false (tagBytes fd.a.tag ++ X) := by
+  cases ht : fd.a.tag with
+  | none => exact bareNull_untagged fd _ ht
+  | some n =>
+    rw [ht] at htag
+    exact bareNull_start fd (Enc.tag n) X (startOk_tag n (of_decide_eq_true htag))
+
+/-- with a negative test the action is the one before the repair. -/
+theorem action_of_not_bare (fd : FDec) (bs : Bytes) (h : bareNull fd bs = .ok false bs) :
+    action fd bs = (do tagCheck fd.a.tag; catchVariant fd bs : Dec (Option Val)) bs := by
+  unfold action
+  rw [Dec.bind_run, h]
+  rfl
+
+/-- a tagged nil-capable field at a bare `null`: the item is skipped, the slot keeps its content. -/
+theorem action_bare_null (fd : FDec) (r : Bytes) (ht : fd.a.tag.isSome = true) (hs : fd.swallow = true) :
+    action fd (Enc.null ++ r) = .ok none r := by
+  unfold action
+  have hb : bareNull fd (Enc.null ++ r) = .ok true (Enc.null ++ r) := by
+    simp [bareNull, ht, Dec.bind_run, datatype_null, hs]
+  rw [Dec.bind_run, hb]
+  simp [Dec.bind_run, skip_null]
+
 theorem action_rt (fd : FDec) (v' : Val) (bs r : Bytes) (htag : tagOk fd.a.tag = true)
     (hd : fd.dec (bs ++ r) = .ok v' r) :
     action fd (tagBytes fd.a.tag ++ (bs ++ r)) = .ok (some v') r := by
-  unfold action
+  rw [action_of_not_bare fd _ (bareNull_tagBytes fd _ htag)]
   rw [Dec.bind_run, tagCheck_rt _ _ htag]
   simp only [catchVariant, hd]
 
